@@ -9,6 +9,9 @@
 (*               | graph? | evalbegin | call* | evaluate / evaluatefull                                      *)
 (*               | call* (refused) | reevaluate / reevaluatefull | graph? | lend                             *)
 (*               (ldrop instead of lend: the next lbegin happens inside the same construct_dag() block)      *)
+(* with a fault plan (desc.faults): an invocation that raised is a `callfail` event, the exception leaving the call /  *)
+(* evaluate() a `raise` event (cls = the class the harness functions raise, val = its message naming the function);     *)
+(* an evaluate() that follows evaluate() calls that raised is again  evalbegin | call* | evaluate / callfail raise        *)
 (* `call` events are the user-function invocations in log order, so an invocation that happens while the     *)
 (* handle is built, or during a second evaluate(), meets a state in which no Call step is enabled.           *)
 EXTENDS PipelineLazy, Json, IOUtils, TLCExt
@@ -31,10 +34,19 @@ TReturn     == IsEvent("return") /\ Eager(Return(Ev.val))
 TReturnFull == IsEvent("returnfull") /\ Eager(ReturnFull(SeqToSet(Ev.pairs)))
 (* shared *)
 TCall       == IsEvent("call") /\ (\E i \in FIdx(d) : d.funcs[i].name = Ev.f) /\
-               IF lazy THEN LCall(FIdxByName(Ev.f), Ev.kwargs) ELSE Eager(Call(FIdxByName(Ev.f), Ev.kwargs))
+               IF lazy THEN LCall(FIdxByName(Ev.f), Ev.kwargs) ELSE ECall(FIdxByName(Ev.f), Ev.kwargs)
+(* an invocation that raised *)
+TCallFail   == IsEvent("callfail") /\ (\E i \in FIdx(d) : d.funcs[i].name = Ev.f) /\
+               IF lazy THEN LCallFail(FIdxByName(Ev.f), Ev.kwargs) ELSE ECallFail(FIdxByName(Ev.f), Ev.kwargs)
+(* the exception of the harness function named n: class and message *)
+FaultCls    == "HarnessError"
+FaultMsg(n) == Atom("#msg:fault in " \o n)
 TRaise      == IsEvent("raise") /\
-               IF lazy THEN \/ (Ev.cls = "UnusedParametersError" /\ BuildRaiseUnused)
-                            \/ (Ev.cls = "ValueError" /\ (BuildRaiseMissing \/ BuildRaiseOutputSupplied))
+               IF phase = "failed"
+               THEN /\ Ev.cls = FaultCls /\ Ev.val = FaultMsg(d.funcs[bad].name)
+                    /\ IF lazy THEN EvalRaise(bad) ELSE ERaise(bad)
+               ELSE IF lazy THEN \/ (Ev.cls = "UnusedParametersError" /\ BuildRaiseUnused)
+                                 \/ (Ev.cls = "ValueError" /\ (BuildRaiseMissing \/ BuildRaiseOutputSupplied))
                ELSE \/ (Ev.cls = "UnusedParametersError" /\ Eager(RaiseUnused))
                     \/ (Ev.cls = "ValueError" /\ Eager(RaiseMissing \/ RaiseOutputSupplied))
 (* lazy *)
@@ -50,7 +62,7 @@ TGraph      == IsEvent("graph") /\ Graph([nodes |-> SeqToSet(Ev.nodes), edges |-
 TLEnd       == IsEvent("lend") /\ LEnd
 TLDrop      == IsEvent("ldrop") /\ LDropKeep        \* handle dropped, the construct_dag() block stays open for the next lbegin
 
-Next == TBegin \/ TCall \/ TReturn \/ TReturnFull \/ TRaise
+Next == TBegin \/ TCall \/ TCallFail \/ TReturn \/ TReturnFull \/ TRaise
         \/ TLBegin \/ TBuild \/ TEvalBegin \/ TEvaluate \/ TEvaluateFull \/ TReEvaluate \/ TReEvaluateFull \/ TGraph \/ TLEnd \/ TLDrop
 Spec == Init /\ [][Next]_<<allvars, tid, l>>
 
@@ -59,6 +71,8 @@ InvNothingBeforeEvaluate == NothingBeforeEvaluate
 InvAtMostOncePerNode     == AtMostOncePerNode
 InvExactlyOnceNeeded     == ExactlyOnceNeeded
 InvValueIsEval           == ValueIsEval
+InvFailuresAccounted     == FailuresAccounted
+InvNoValueFromFailure    == NoValueFromFailure
 InvGraphIsOK             == GraphIsOK
 InvDoneOnlyNeeded        == DoneOnlyNeeded
 Accepted == \A i \in 1..NT : (TLCGet(i) = Len(Traces[i].ev) + 1) \/ PrintT(<<"REJECT", i, TLCGet(i)>>)
